@@ -5,6 +5,7 @@ import (
 	"net"
 	"sync"
 	"sync/atomic"
+	"syscall"
 	"time"
 
 	"github.com/Jigsaw-Code/outline-ss-server/service"
@@ -288,7 +289,7 @@ func StartUDPRig(keys []KeySpec, o UDPRigOpts) *UDPRig {
 	if err != nil {
 		fatalf("udp rig listen: %v", err)
 	}
-	pc.SetReadBuffer(8 << 20)
+	bigBuffers(pc)
 	rig := &UDPRig{Keys: keys, CL: BuildCipherList(keys), PC: pc, Port: pc.LocalAddr().(*net.UDPAddr).Port,
 		Rec: &UDPRec{tee: o.Tee}, SS: &searchRec{}, Nat: &NatRegistry{}, done: make(chan struct{})}
 	if !o.NoNatHook {
@@ -323,6 +324,19 @@ func (r *UDPRig) Close(within time.Duration) bool {
 	}
 }
 
+// bigBuffers raises the socket buffers beyond net.core.rmem_max (we are root in the lab), so
+// that bursts of maximum-size datagrams are not dropped by the kernel before anyone reads them.
+func bigBuffers(pc *net.UDPConn) {
+	pc.SetReadBuffer(8 << 20)
+	pc.SetWriteBuffer(8 << 20)
+	if rc, err := pc.SyscallConn(); err == nil {
+		rc.Control(func(fd uintptr) {
+			syscall.SetsockoptInt(int(fd), syscall.SOL_SOCKET, 33 /* SO_RCVBUFFORCE */, 16<<20)
+			syscall.SetsockoptInt(int(fd), syscall.SOL_SOCKET, 32 /* SO_SNDBUFFORCE */, 16<<20)
+		})
+	}
+}
+
 // ---------- UDP endpoints ----------
 
 // UDPEnd is a recording UDP socket (client or target).
@@ -346,7 +360,7 @@ func NewUDPEnd(ip net.IP, port int) (*UDPEnd, error) {
 	if err != nil {
 		return nil, err
 	}
-	pc.SetReadBuffer(8 << 20)
+	bigBuffers(pc)
 	e := &UDPEnd{PC: pc, Addr: pc.LocalAddr().(*net.UDPAddr)}
 	go func() {
 		buf := make([]byte, 70000)
